@@ -35,7 +35,7 @@ def strip_time(text):
 # ------------------------------------------------------------------ C++ reader
 def read_cpp(text):
     body = text[text.index("// Intro"):] if "// Intro" in text else text
-    model = {"event": [], "consts": [], "resvars": [], "pars": [], "amps": [], "amp_titles": []}
+    model = {"event": [], "consts": [], "resvars": [], "pars": [], "amps": [], "amp_titles": [], "arrays": []}
     m = re.search(r"// Event type: (\S+) ->\s+(.*)", body)
     if m:
         model["event"] = [m.group(1)] + re.findall(r"(\S+) \(\d+\)", m.group(2))
@@ -70,10 +70,13 @@ def read_cpp(text):
         m = re.match(r"\s*std::vector<Variable>\s+(\w+) \{\{", ln)
         if m:
             j = i + 1
+            items = []
             while j < len(lines) and "}};" not in lines[j]:
                 for s in cand.findall(lines[j]):
                     events.append({"k": "use", "sym": s})
+                    items.append(s)
                 j += 1
+            model["arrays"].append([m.group(1), items])
             events.append({"k": "decl", "sym": m.group(1)})
             declared.add(m.group(1))
             i = j + 1
@@ -87,6 +90,9 @@ def read_cpp(text):
                 if s.endswith(("_M", "_W", "_SplineArr")) or s in KM_SYMS:
                     events.append({"k": "use", "sym": s})
         i += 1
+    # array members by the name their Variable carries (the identifiers are language-specific spellings of it)
+    raw = {p_[0]: p_[1] for p_ in model["pars"]}
+    model["arrays"] = [[n_, [raw.get(x, x) for x in items_]] for n_, items_ in model["arrays"]]
     blocks = re.split(r"\n\s*// Line \d+\n", body)[1:]
     for b in blocks:
         m = re.search(r'new Amplitude\{\s*"(.*)",\s*mkvar\("(.*)", (true|false), ([^,]+), ([^)]+)\),\s*mkvar\("(.*)", (true|false), ([^,]+), ([^)]+)\),', b)
@@ -110,7 +116,7 @@ BLANK_AMP = {"title": "?", "re_name": "?", "im_name": "??", "re": "?", "im": "?"
 
 def read_py(text, exempt=()):
     ns, err = fakegoofit.execute(text, predefined=exempt)
-    model = {"event": [], "consts": [], "resvars": [], "pars": [], "amps": [], "amp_titles": []}
+    model = {"event": [], "consts": [], "resvars": [], "pars": [], "amps": [], "amp_titles": [], "arrays": []}
     m = re.search(r"#Event type: (\S+) ->\s+(.*)", text)
     if m:
         model["event"] = [m.group(1)] + re.findall(r"(\S+) \(\d+\)", m.group(2))
@@ -123,6 +129,13 @@ def read_py(text, exempt=()):
                 model["resvars"].append([k, fnum(v.args[1])])
             else:
                 model["pars"].append([k, v.args[0], fnum(v.args[1]), fnum(v.args[2]) if len(v.args) > 2 else "fixed"])
+    # parameter arrays handed to the lineshapes (f_scatt, IS_poles, spline arrays): name and members in order
+    model["arrays"] = []
+    for k in list(dict.keys(ns)):
+        v = dict.get(ns, k)
+        if isinstance(v, list) and k not in ("amplitudes_list", "line_factor_list", "spin_factor_list") and v \
+                and all(isinstance(x, fakegoofit.Call) and x.path == "Variable" for x in v):
+            model["arrays"].append([k, [x.args[0] for x in v]])
     amps = ns.get("amplitudes_list", []) if isinstance(dict.get(ns, "amplitudes_list"), list) else []
     for a in amps:
         try:
@@ -196,7 +209,7 @@ def build(args):
         ret, printed, leaked, err = convert(fn, path)
         raw[lang] = ret
         o = {"raised": err, "returned_is_printed": strip_time(ret) == strip_time(printed) and leaked == "",
-             "events": [], "model": {"event": [], "consts": [], "resvars": [], "pars": [], "amps": [], "amp_titles": []},
+             "events": [], "model": {"event": [], "consts": [], "resvars": [], "pars": [], "amps": [], "amp_titles": [], "arrays": []},
              "exec_error": "-"}
         if err == "-":
             # judge the complete text (what a user gets on stdout)
